@@ -300,3 +300,30 @@ func C01_FloatText() {
 	r.assertAgree("float text")
 	verif.Reach("compared")
 }
+
+// C01_Wide: expressions evaluated in programs that already hold 236..300
+// variables and constants, so that the operands of the expression's own
+// instructions (constant indices, local slots) cross the one-byte varint
+// range; operand values symbolic.
+func C01_Wide() {
+	n := []int{236, 238, 239, 240, 241, 242, 250, 254, 255, 256, 300}[verif.Choice("n", 11)]
+	src := ""
+	for i := 0; i < n; i++ {
+		src += "var v" + itoa(i) + " = " + itoa(i+2000) + "\n"
+	}
+	last := "v" + itoa(n-1)
+	switch verif.Choice("shape", 4) {
+	case 0:
+		src += "print 1001 + 1002 * " + last + "\nprint -1001 < 1002\nprint " + last + " - 1002\n"
+	case 1:
+		src += "var w = 1001\nprint w * 1002 + v0\nprint not (w == 1002)\nprint w / 3\n"
+	case 2:
+		src += "print \"a\" + \"b\"\nprint 1001 == 1002 or " + last + " > 1001\nprint 1.5 + 1001\n"
+	default:
+		src += "def t {\n f = 1001 - 1002\n g = f * " + last + "\n var u = g + 1002\n h = u\n}\nprint 1001 and 1002\n"
+	}
+	r := runBoth(src, map[string]any{"1001": verif.Int("a"), "1002": verif.Int("b")})
+	verif.Observe("err", errClass(r.Real.Err))
+	r.assertAgree("wide")
+	verif.Reach("compared")
+}
